@@ -321,3 +321,47 @@ def cond_is(test: ast.AST, pol: bool, pattern: str, want: bool = True, binds=Non
     if m is not None and p == want:
         return m
     return None
+
+
+def accumulated_list(func: Func, name: str) -> Optional[ast.AST]:
+    """expression equivalent to the final value of local list `name` when it is defined once by a list literal and grown by
+    exactly one accumulate loop (`for v in X: [guards] name.append(E)`): `<literal> + [E for v in X if guards]`; else None"""
+    inits = []
+    for n in walk_no_nested(func.node):
+        if isinstance(n, (ast.Assign, ast.AnnAssign)):
+            tg = n.targets if isinstance(n, ast.Assign) else [n.target]
+            if any(isinstance(t, ast.Name) and t.id == name for t in tg):
+                inits.append(n)
+        elif isinstance(n, ast.AugAssign) and isinstance(n.target, ast.Name) and n.target.id == name:
+            inits.append(n)
+    if len(inits) != 1 or not isinstance(inits[0], (ast.Assign, ast.AnnAssign)) or not isinstance(inits[0].value, ast.List):
+        return None
+    cs = [c for c in collects(func) if c.kind == 'loop' and c.acc == name]
+    other_mut = [n for n in walk_no_nested(func.node) if isinstance(n, ast.Call) and isinstance(n.func, ast.Attribute) and
+                 isinstance(n.func.value, ast.Name) and n.func.value.id == name and n.func.attr not in ('append',)
+                 and n.func.attr in ('extend', 'insert', 'remove', 'pop', 'clear', 'sort', 'reverse')]
+    if len(cs) != 1 or other_mut:
+        return None
+    c = cs[0]
+    # single appends outside every loop contribute one element each
+    singles = []
+    for n in walk_no_nested(func.node):
+        if isinstance(n, ast.Expr) and isinstance(n.value, ast.Call) and isinstance(n.value.func, ast.Attribute) and \
+                n.value.func.attr == 'append' and isinstance(n.value.func.value, ast.Name) and n.value.func.value.id == name and \
+                len(n.value.args) == 1:
+            in_loop = any(isinstance(l, (ast.For, ast.While)) and any(x is n for x in ast.walk(l)) for l in walk_no_nested(func.node))
+            if not in_loop:
+                cfg = cfg_of(func)
+                if cfg.conditions(cfg.node_of(n)) != cfg.conditions(cfg.node_of(inits[0])):
+                    return None      # conditional extra element: not expressible
+                singles.append(copy.deepcopy(n.value.args[0]))
+    ifs = []
+    for t, p in c.conds:
+        ifs.append(copy.deepcopy(t) if p else ast.UnaryOp(op=ast.Not(), operand=copy.deepcopy(t)))
+    comp = ast.ListComp(elt=copy.deepcopy(c.elt), generators=[ast.comprehension(target=copy.deepcopy(c.target), iter=copy.deepcopy(c.iter),
+                                                                                ifs=ifs, is_async=0)])
+    lit = ast.List(elts=[copy.deepcopy(e) for e in inits[0].value.elts] + singles, ctx=ast.Load())
+    out = ast.BinOp(left=comp, op=ast.Add(), right=lit) if lit.elts else comp
+    ast.copy_location(out, inits[0])
+    ast.fix_missing_locations(out)
+    return out
